@@ -9,7 +9,9 @@
 use biodivine_hctl_model_checker::evaluation::algorithm::{compute_steady_states, eval_node};
 use biodivine_hctl_model_checker::evaluation::eval_context::EvalContext;
 use biodivine_hctl_model_checker::evaluation::mark_duplicates::mark_duplicates_canonized_multiple;
-use biodivine_hctl_model_checker::mc_utils::{check_hctl_var_support, get_extended_symbolic_graph};
+use biodivine_hctl_model_checker::mc_utils::{
+    check_hctl_var_support, collect_unique_hctl_vars, get_extended_symbolic_graph,
+};
 use biodivine_hctl_model_checker::model_checking::*;
 use biodivine_hctl_model_checker::preprocessing::hctl_tree::{HctlTreeNode, NodeType};
 use biodivine_hctl_model_checker::preprocessing::operator_enums::*;
@@ -584,11 +586,36 @@ fn run_eval(fields: &[&str], cases: &mut impl Write, out: &mut impl Write) {
                 for f in &fs {
                     trees.push(parse_and_minimize_hctl_formula(graph.symbolic_context(), f)?);
                 }
-                return if sanitize {
-                    model_check_multiple_trees(trees, graph)
-                } else {
-                    model_check_multiple_trees_dirty(trees, graph)
+                if trees.len() == 1 {
+                    // the single-tree entry points (with and without observer)
+                    let t = trees.pop().unwrap();
+                    return Ok(vec![match (sanitize, with_observer) {
+                        (true, false) => model_check_tree(t, graph)?,
+                        (false, false) => model_check_tree_dirty(t, graph)?,
+                        (true, true) => _model_check_tree(t, graph, &mut cb)?,
+                        (false, true) => _model_check_tree_dirty(t, graph, &mut cb)?,
+                    }]);
+                }
+                return match (sanitize, with_observer) {
+                    (true, false) => model_check_multiple_trees(trees, graph),
+                    (false, false) => model_check_multiple_trees_dirty(trees, graph),
+                    (true, true) => _model_check_multiple_trees(trees, graph, &mut cb),
+                    (false, true) => _model_check_multiple_trees_dirty(trees, graph, &mut cb),
                 };
+            }
+            if fs.len() == 1 {
+                // one formula: the single-formula entry points, as a user would call them
+                let f = fs[0];
+                return Ok(vec![match (ext, sanitize, with_observer) {
+                    (false, true, false) => model_check_formula(f, graph)?,
+                    (false, false, false) => model_check_formula_dirty(f, graph)?,
+                    (true, true, false) => model_check_extended_formula(f, graph, &context)?,
+                    (true, false, false) => model_check_extended_formula_dirty(f, graph, &context)?,
+                    (false, true, true) => _model_check_formula(f, graph, &mut cb)?,
+                    (false, false, true) => _model_check_formula_dirty(f, graph, &mut cb)?,
+                    (true, true, true) => _model_check_extended_formula(f, graph, &context, &mut cb)?,
+                    (true, false, true) => _model_check_extended_formula_dirty(f, graph, &context, &mut cb)?,
+                }]);
             }
             match (ext, sanitize, with_observer) {
                 (false, true, false) => model_check_multiple_formulae(fs.clone(), graph),
@@ -639,6 +666,18 @@ fn run_eval(fields: &[&str], cases: &mut impl Write, out: &mut impl Write) {
     }
     if !model_ok {
         writeln!(out, "{id} NOMODEL").unwrap();
+    }
+}
+
+/// maximal nesting depth of bind / exists / forall
+fn quant_depth(t: &HctlTreeNode) -> usize {
+    match &t.node_type {
+        NodeType::Terminal(_) => 0,
+        NodeType::Unary(_, c) => quant_depth(c),
+        NodeType::Binary(_, l, r) => std::cmp::max(quant_depth(l), quant_depth(r)),
+        NodeType::Hybrid(op, _, _, c) => {
+            quant_depth(c) + if matches!(op, HybridOp::Jump) { 0 } else { 1 }
+        }
     }
 }
 
@@ -702,7 +741,16 @@ fn run_front(fields: &[&str], cases: &mut impl Write, out: &mut impl Write, line
                     parse_and_minimize_hctl_formula(&ctx, s.as_str())
                 };
                 match r {
-                    Ok(t) => Ok(tree_s(&t)),
+                    Ok(t) => {
+                        // the crate's own count of distinct variable names must be the nesting depth
+                        let names = collect_unique_hctl_vars(t.clone()).len();
+                        let depth = quant_depth(&t);
+                        if names != depth {
+                            Err(format!("Other:collect_unique_hctl_vars reports {names} names, nesting depth is {depth}"))
+                        } else {
+                            Ok(tree_s(&t))
+                        }
+                    }
                     Err(m) => Err(classify_error(&[s], ext, &ctx, None, &HashMap::new(), &m)),
                 }
             }
